@@ -228,6 +228,10 @@ let handle = function
      | "to_int", [s] -> a_z (to_int (sv s))
      | "from_int", [v] -> ss (from_int (z_a v))
      | _ -> failwith "str fn")
+  | L [A "tls_run"; L reqs] ->
+    let rq = List.map (function L [A t; A e] -> (nat_of_int (int_of_string t), nat_of_int (int_of_string e)) | _ -> failwith "req") reqs in
+    let (os, _) = run (fun _ -> []) rq in
+    L (List.map (fun o -> L [A (string_of_int (int_of_nat o.o_ctx)); A (string_of_int (int_of_nat o.o_expr))]) os)
   | L [A "fe_split_fe"; st] -> L (List.map fe_sexp (split_fe (fe_of st)))
   | L [A "meta"; e] ->
     let x = expr_of e in
